@@ -127,9 +127,8 @@ theorem roll64_range (n : Nat) (hn : 0 < n) (hlt : n < two64) (ws : List Nat)
   have := Nat.mod_lt w hn
   omega
 
-/-- `Roll` for a legal side count in random mode is `_roll64`; side count 0 gives 0, side counts
-    above MaxInt64-1 give 0 without drawing (the documented limit) -/
-theorem roll_is_roll64 (sides : Int) (h0 : 0 < sides) (h1 : sides ≤ maxInt64 - 1) (ws : List Nat) :
+/-- `Roll` for every positive side count an int64 can hold, in random mode, is `_roll64`; side count 0 gives 0 -/
+theorem roll_is_roll64 (sides : Int) (h0 : 0 < sides) (h1 : sides ≤ maxInt64) (ws : List Nat) :
     roll sides 0 ws = (roll64 sides.toNat ws).map (fun p => (wrap64 (p.1 : Int), p.2)) := by
   have hne : (sides == 0) = false := by simp; omega
   have hu : toU64 sides = sides.toNat := by
@@ -138,17 +137,27 @@ theorem roll_is_roll64 (sides : Int) (h0 : 0 < sides) (h1 : sides ≤ maxInt64 -
     simp [this]
   unfold roll
   simp only [hne]
-  have : ¬ sides > maxInt64 - 1 := by omega
-  simp [this, hu]
+  simp [hu]
   cases roll64 sides.toNat ws <;> simp
 
 theorem roll_zero (mode : Int) (ws : List Nat) : roll 0 mode ws = some (0, ws) := by
   simp [roll]
 
-theorem roll_too_large (sides : Int) (h : sides > maxInt64 - 1) (ws : List Nat) :
-    roll sides 0 ws = some (0, ws) := by
-  have : (sides == 0) = false := by unfold maxInt64 at h; simp; omega
-  simp [roll, this, h]
+/-- the largest die (2^63 − 1 sides; it used to roll 0) is a die like any other: a face in 1..MaxInt64 -/
+theorem roll_largest (ws : List Nat) (hws : ∀ w ∈ ws, w < two64) (r : Int) (rest : List Nat)
+    (h : roll maxInt64 0 ws = some (r, rest)) : 1 ≤ r ∧ r ≤ maxInt64 := by
+  rw [roll_is_roll64 maxInt64 (by decide) (by decide)] at h
+  cases h64 : roll64 maxInt64.toNat ws with
+  | none => rw [h64] at h; simp at h
+  | some p =>
+    rw [h64] at h
+    simp at h
+    obtain ⟨rfl, _⟩ := h
+    have hr := roll64_range maxInt64.toNat (by decide) (by decide) ws hws p.1 p.2 (by rw [h64])
+    have e : maxInt64.toNat = 9223372036854775807 := by decide
+    rw [e] at hr
+    unfold wrap64 two63 two64 maxInt64
+    omega
 
 /-- Independence of successive dice: a die is a function of its own segment of the stream only.
     If a roll consumed `pre` (so `ws = pre ++ rest`), it returns the same face on `pre ++ rest'` for
